@@ -127,7 +127,8 @@ def handle (j : Json) : Except String Json := do
     | .ok p =>
       pure (Json.mkObj [("ok", Json.mkObj [("modules", Json.arr (p.modules.map encModule).toArray), ("writeLog", strs p.writeLog),
         ("reported", strs p.reported), ("onDisk", strs p.onDisk), ("wellScoped", Json.arr ((Spec.PyScope.violations p).map Json.str).toArray),
-        ("proved", Spec.PyScope.provedB cfg inp), ("documented", true)])])
+        ("proved", Spec.PyScope.provedB cfg inp), ("leafNamesOK", PackageValid.leafNamesOK inp),
+        ("openPart", p.modules.all Spec.PyScope.openPart), ("documented", true)])])
     | .error e => pure (Json.mkObj (encErr e ++ [("written", strs r.written), ("mkdir", r.mkdir), ("documented", documentedRefusal e), ("proved", Spec.PyScope.provedB cfg inp)]))
   | "triggers" => pure (strs (PackageTriggers.triggers cfg inp))
   | "valid" => pure (strs (PackageValid.invalidParts cfg inp))
